@@ -3,6 +3,7 @@ package main
 import (
 	"fmt"
 	"strconv"
+	"strings"
 
 	"golang.org/x/perf/benchfmt"
 	"golang.org/x/perf/benchproc"
@@ -32,12 +33,63 @@ func c05One(o *hx.Out, r *hx.Rng, name string, cfg [][3]string) error {
 			res.Config[i].File = false
 		}
 	}
+	// what the configuration must be, kept by the harness itself (key -> value, file flag) in SetConfig's terms
+	type kv struct {
+		k, v string
+		file bool
+	}
+	var want []kv
+	setWant := func(k, v string, file bool) {
+		for i := range want {
+			if want[i].k == k {
+				if v == "" {
+					want = append(want[:i], want[i+1:]...)
+				} else {
+					want[i].v = v
+				}
+				return
+			}
+		}
+		if v != "" {
+			want = append(want, kv{k, v, file})
+		}
+	}
+	for _, c := range cfg {
+		setWant(c[0], c[1], true)
+		if c[2] == "internal" {
+			for i := range want {
+				if want[i].k == c[0] {
+					want[i].file = false
+				}
+			}
+		}
+	}
+	// one case in five: the result under test is a CLONE that was edited after cloning - an existing key that is not
+	// the last one gets a longer (sometimes a shorter) value, sometimes twice; the keys behind it must keep their values
+	if len(want) >= 2 && r.Chance(0.2) {
+		res = res.Clone()
+		for n := 1 + r.Intn(2); n > 0; n-- {
+			i := r.Intn(len(want) - 1)
+			nv := want[i].v + strings.Repeat("w", 1+r.Intn(3))
+			if r.Chance(0.2) && len(want[i].v) > 1 {
+				nv = want[i].v[:len(want[i].v)-1]
+			}
+			res.SetConfig(want[i].k, nv)
+			if !want[i].file {
+				j, _ := res.ConfigIndex(want[i].k)
+				res.Config[j].File = false
+			}
+			want[i].v = nv
+			cfg = append(cfg, [3]string{want[i].k, nv, map[bool]string{true: "file", false: "internal"}[want[i].file]})
+		}
+		o.Count("class:clone-then-SetConfig")
+	}
 	base, parts := res.Name.Parts()
 	Base := res.Name.Base()
 	in := c05Input{Name: name, Config: cfg}
 	var cfgT []hx.Sx
-	for _, c := range res.Config {
-		cfgT = append(cfgT, hx.L(hx.S(c.Key), hx.B(c.Value), hx.Bool(c.File)))
+	for _, c := range want {
+		cfgT = append(cfgT, hx.L(hx.S(c.k), hx.B([]byte(c.v)), hx.Bool(c.file)))
 	}
 	// keys through single-field projections
 	var gets, fm []hx.Sx
@@ -81,6 +133,26 @@ func c05One(o *hx.Out, r *hx.Rng, name string, cfg [][3]string) error {
 			return err
 		}
 		fm = append(fm, hx.L(hx.S(k), hx.S(lit), hx.Bool(m.All())))
+	}
+	// literal .name filters whose value is NOT a plain base name: the full name, the base with a -N suffix, the base
+	// with its first part, the base itself: .name is the base, so only the last can match (unless the name is its own base)
+	{
+		lits := []string{name, string(Base) + "-8", string(Base)}
+		if len(parts) > 0 {
+			lits = append(lits, string(Base)+string(parts[0]))
+		}
+		for _, lit := range lits {
+			flt, err := benchproc.NewFilter(".name:" + strconv.Quote(lit))
+			if err != nil {
+				return fmt.Errorf("filter .name:%q: %v", lit, err)
+			}
+			m, err := flt.Match(res)
+			if err != nil {
+				return err
+			}
+			fm = append(fm, hx.L(hx.S(".name"), hx.S(lit), hx.Bool(m.All())))
+			in.Keys = append(in.Keys, ".name")
+		}
 	}
 	// .fullname next to other projections of the same parser (exclusions)
 	var xf []hx.Sx
